@@ -145,6 +145,11 @@ mod imp {
             SumForm { name: "Sum<AffinePoint> over flat_map()", f: |l| l.iter().flat_map(|e| Some(af(e))).sum() },
             SumForm { name: "Sum<Element> over chain(skip_while)", f: |l| l.iter().copied().skip_while(|_| false).chain(std::iter::empty()).sum() },
             SumForm { name: "Sum<Element> over from_fn", f: |l| { let mut i = 0; std::iter::from_fn(|| { let r = l.get(i).copied(); i += 1; r }).sum() } },
+            // call shapes: a sum whose iterator itself computes sums (re-entrancy of any scratch state)
+            SumForm { name: "Sum<Element> of row sums (nested Sum<Element>)", f: |l| l.chunks(3).map(|r| r.iter().copied().sum::<El>()).sum() },
+            SumForm { name: "Sum<&Element> of row sums (nested, collected rows of &Element)", f: |l| { let rows: Vec<El> = l.chunks(2).map(|r| r.iter().sum::<El>()).collect(); rows.iter().chain(std::iter::empty()).sum() } },
+            SumForm { name: "Sum<AffinePoint> of lazily computed row sums (nested Sum<&AffinePoint>)", f: |l| { let a: Vec<Af> = l.iter().map(af).collect(); a.chunks(4).map(|r| af(&r.iter().sum::<El>())).sum() } },
+            SumForm { name: "Sum<Element> inside Sum<Element> inside Sum<Element>", f: |l| l.chunks(4).map(|r| r.chunks(2).map(|q| q.iter().copied().sum::<El>()).sum::<El>()).sum() },
         ]
     }
 
@@ -202,6 +207,15 @@ mod imp {
             MsmForm { name: "vartime_multiscalar_mul(chain / take_while iterators)", f: |p, s| {
                 let h = s.len() / 2;
                 El::vartime_multiscalar_mul(s[..h].iter().chain(s[h..].iter()), p.iter().take_while(|_| true))
+            } },
+            // re-entrant call shape: the points are produced lazily by inner multiscalar multiplications
+            MsmForm { name: "vartime_multiscalar_mul(points computed by nested vartime_multiscalar_mul)", f: |p, s| {
+                let one = [Fr::ONE];
+                El::vartime_multiscalar_mul(s.iter(), p.iter().map(|e| El::vartime_multiscalar_mul(one.iter(), [*e].iter())))
+            } },
+            MsmForm { name: "vartime_multiscalar_mul(scalars computed during iteration by a nested call)", f: |p, s| {
+                let g = El::GENERATOR;
+                El::vartime_multiscalar_mul(s.iter().map(|k| { let _ = El::vartime_multiscalar_mul([*k].iter(), [g].iter()); *k }), p.iter().copied())
             } },
             MsmForm { name: "VariableBaseMSM::msm", f: |p, s| {
                 let bases = El::normalize_batch(p);
